@@ -266,6 +266,17 @@ func (r *resolver) copyOverSubmoduleData(main *Module, sub *Module) error {
 	return r.copyOverIncludes(main, sub.includes)
 }
 
+// sameDefault compares the default(s) of a leaf or leaf-list with the given values
+func sameDefault(target HasDefault, vals []string) bool {
+	switch x := target.(type) {
+	case HasDefaultValue:
+		return len(vals) == 1 && vals[0] == x.Default()
+	case HasDefaultValues:
+		return isArrayStringEqual(vals, x.Default())
+	}
+	return false
+}
+
 func (r *resolver) applyDeviation(y *Module, d *Deviation) error {
 	target := Find(y, d.Ident())
 	if target == nil {
@@ -397,7 +408,7 @@ func (r *resolver) applyDeviation(y *Module, d *Deviation) error {
 			hasType.setUnits("")
 		}
 		if d.Delete.HasDefault() {
-			if !hasType.HasDefault() || hasType.DefaultValue() != d.Delete.DefaultValue() {
+			if !hasType.HasDefault() || !sameDefault(hasType, d.Delete.Default()) {
 				return fmt.Errorf("cannot delete default '%s' != '%s' on %s",
 					d.Delete.Default(), hasType.DefaultValue(),
 					d.Ident())
